@@ -203,6 +203,8 @@ pub fn cases<T: KS + Send + Sync>(out: &mut Out, rng0: &mut Rng, tier: &Tier) {
             out.case("chk.c09.exts", l(vec![nu(k), st.clone(), in_v.clone(), cv.clone(), o.clone()]), b(true));
             out.case("chk.c09.no_dangling", l(vec![nu(k), st.clone(), o.clone()]), b(true));
             out.case("chk.c09.payload", l(vec![nu(k), st.clone(), in_v.clone(), o.clone()]), b(true));
+            // fold ORDER (non-commutative reduction): seed = lowest input node of the path, then left, then right
+            out.case("chk.c09.payload_order", l(vec![nu(k), st.clone(), in_v.clone(), o.clone()]), b(true));
             // an already compressed input (same join predicate) must come back unchanged up to order/orientation
             if trivial_censor && kind == 0 && m1 == m2 && !recolour && !loose {
                 out.case("chk.c09.idempotent", l(vec![nu(k), st.clone(), in_v.clone(), o.clone()]), b(true));
